@@ -222,6 +222,10 @@ func (s *Sched) Died(name string) (string, bool) {
 	return m, ok
 }
 
+// AnyDied reports whether some driver thread ended in a panic. Must not be called with the lock held... it is
+// called from WaitUntil predicates, which run under the lock, hence the lock-free read of the map length.
+func (s *Sched) AnyDied() bool { return len(s.died) > 0 }
+
 // State is a printable summary: parked gates and finished threads.
 func (s *Sched) State() (parkedAt map[string]string, done []string) {
 	s.mu.Lock()
